@@ -267,7 +267,7 @@ def run(ctx):
         "an explicit stopband_begin > 1 admits aliasing / imaging above 2 - stopband_begin: the pass-band the property speaks about is read as "
         "[0, min(passband_end, 2 - stopband_begin)] (for up-sampling _soxr_init enforces passband_end <= 2 - stopband_begin itself); the generator "
         "keeps passband_end below it",
-        "known findings of the pinned tree (known_findings.d/signal.json: F-PH1, F-SG1, F-SG2, F-SG4) are recognised by a configuration/plan signature "
+        "known findings of the pinned tree (known_findings.d/signal.json: F-PH1, F-SG1, F-SG2, F-SG4, F-SG5) are recognised by a configuration/plan signature "
         "AND a symptom bound; their margins are listed separately under worst_margins ([... signature])",
     )
     if broken and not ctx.violations:
